@@ -240,8 +240,17 @@ class Engine(Interp, InterpExpr, InterpComp, InterpStmt, InterpCall, InterpBuilt
         result = self.fresh_value('ret_' + fi.name, rty)
         bindings['result'] = result
         for cl in con.post:
+            if self._mentions_effects(cl):
+                # a clause about the callee's own ghost effect log says nothing in the caller's log (where the call is one
+                # entry, `effect =`): evaluating it there could even assume False. It is not used at call sites.
+                continue
             self.run.assume(self.eval_clause(cl, con.module, bindings))
         return result
+
+    EFFECT_VOCABULARY = {'no_effect', 'count_effects', 'effect_at', 'effects'}
+
+    def _mentions_effects(self, clause):
+        return any(isinstance(n, ast.Name) and n.id in self.EFFECT_VOCABULARY for n in ast.walk(clause))
 
     def _skolemisable(self, ty):
         if ty in (INT, BOOL, REAL, STR) or isinstance(ty, TEnum):
@@ -334,7 +343,10 @@ def load_contract_module(ct, reg, path, modname):
             mod.assigns[node.targets[0].id] = node.value
         elif isinstance(node, ast.ImportFrom):
             for a in node.names:
-                mod.imports[a.asname or a.name] = ('from', node.module or '', a.name)
+                if a.name == '*' and (node.module or '').startswith('contracts.'):
+                    mod.star_imports.append(node.module)    # specification functions shared between contract files
+                else:
+                    mod.imports[a.asname or a.name] = ('from', node.module or '', a.name)
     return mod
 
 
